@@ -24,7 +24,7 @@ impl_io_uring_write!(IoUringPwritevSyscall, PwritevSyscall,
     pwritev(fd: c_int, iov: *const iovec, iovcnt: c_int, offset: off_t) -> ssize_t
 );
 
-impl_nio_write_iovec!(NioPwritevSyscall, PwritevSyscall,
+impl_nio_write!(NioPwritevSyscall, PwritevSyscall,
     pwritev(fd: c_int, iov: *const iovec, iovcnt: c_int, offset: off_t) -> ssize_t
 );
 
